@@ -317,8 +317,13 @@ def calls_in(t, suffix=None):
 
 
 def alts(t):
-    """alternatives of a phi (or the term itself)"""
-    return list(t[1]) if isinstance(t, tuple) and t and t[0] == "phi" else [t]
+    """the alternatives of a phi (nested phis flattened), or [t]"""
+    if isinstance(t, tuple) and t and t[0] == "phi":
+        out = []
+        for x in t[1]:
+            out.extend(alts(x))
+        return out
+    return [t]
 
 
 def strip_try(t):
@@ -412,3 +417,52 @@ def match(t, p, env=None):
 def ok_payloads(t):
     """payload terms of the `Ok(..)` alternatives of a returned term"""
     return [dict(a[3])["0"] for a in alts(t) if a[0] == "agg" and a[2] == "Ok"]
+
+
+# ---------------------------------------------------------------- helper inlining
+def subst_params(t, args):
+    """replace ('param', i, name) by args[i-1] (1-based MIR locals) throughout term t"""
+    if not isinstance(t, tuple) or not t:
+        return t
+    k = t[0]
+    if k == "param":
+        i = t[1]
+        return args[i - 1] if 1 <= i <= len(args) else t
+    if k == "phi":
+        return ("phi", frozenset(subst_params(x, args) for x in t[1]))
+    if k == "agg":
+        return ("agg", t[1], t[2], tuple((n, subst_params(x, args)) for (n, x) in t[3]))
+    if k in ("call", "closure"):
+        return (k, t[1], tuple(subst_params(x, args) for x in t[2])) + tuple(t[3:])
+    return tuple(subst_params(x, args) if isinstance(x, tuple) else x for x in t)
+
+
+def inline_helpers(t, prog, crate="jiff", depth=1, max_blocks=60, _active=None, pred=None):
+    """Replace calls of small functions of `crate` by their (parameter-substituted) return terms, `depth` levels deep.
+    Shape rules use it so that extracting a few lines into a private helper does not change what they see.  Callees that
+    are recursive, large, or unknown are left as calls."""
+    if depth <= 0 or not isinstance(t, tuple) or not t:
+        return t
+    _active = _active or set()
+    k = t[0]
+    if k == "call":
+        args = tuple(inline_helpers(a, prog, crate, depth, max_blocks, _active, pred) for a in t[2])
+        key = crate + "::" + t[1]
+        g = prog.fns.get(key)
+        if g is not None and key not in _active and len(g.blocks) <= max_blocks and (g.get("argc") or 0) == len(args) \
+                and (pred is None or pred(g)):
+            try:
+                r = Terms(g).returns()
+            except Exception:
+                r = None
+            if r is not None:
+                r = subst_params(r, args)
+                return inline_helpers(r, prog, crate, depth - 1, max_blocks, _active | {key}, pred)
+        return ("call", t[1], args) + tuple(t[3:])
+    if k == "phi":
+        return ("phi", frozenset(inline_helpers(x, prog, crate, depth, max_blocks, _active, pred) for x in t[1]))
+    if k == "agg":
+        return ("agg", t[1], t[2], tuple((n, inline_helpers(x, prog, crate, depth, max_blocks, _active, pred)) for (n, x) in t[3]))
+    if k == "closure":
+        return t
+    return tuple(inline_helpers(x, prog, crate, depth, max_blocks, _active, pred) if isinstance(x, tuple) else x for x in t)
